@@ -40,7 +40,15 @@ def run(ctx):
     rfw = ctx.rule('R-FORWARD', 'a WhenAny wrapper hands an input back as the output outside the strategy only for a '
                    'single input, or a Ready input that (policy None) completed / (other policies) holds a value',
                    minimum=9)
+    ron = ctx.rule('R-ONENODE', 'a combinator callback node is registered on at most one shared input (a shared core links its subscribers through the node\'s next pointer)', minimum=4)
+    rho = ctx.rule('R-HANDOFF', 'a When* combinator is not touched after its last input has been registered: the registration loop\'s condition / increment and the code after it work on locals only', minimum=2)
     for cfg, fb in sorted(fbs.items()):
+        from rules import lib_when as _lw
+        if (ctx.guard(lambda: _lw.check_one_node(ctx, fb, ron)) or 0) < 2:
+            ctx.guard(lambda: ctx.broken('R-ONENODE: no StaticCombinator / SingleCombinator instantiation found'))
+        from rules import lib_when as _lw2
+        if (ctx.guard(lambda: _lw2.check_handoff_loops(ctx, fb, rho)) or 0) < 1:
+            ctx.guard(lambda: ctx.broken('R-HANDOFF: no registration loop of a When* combinator found'))
         ctx.guard(lambda: lib_when.check_policy_forward(ctx, fb, rpf, r'^yaclib::WhenAny$', True))
         ctx.guard(lambda: lib_when.check_any_forward(ctx, fb, rfw))
         ctx.guard(lambda: lib_when.check_outcome(ctx, fb, rout, ('yaclib::when::Any',)))
